@@ -6,7 +6,7 @@
     it evaluates the specification ([spec_at], [quiescent_clean_b], probe = listener) on the
     observations. *)
 From Coq Require Import ZArith.
-From CM Require Import Lib.Str Lib.Wire Gen.Consts Safe.Model Challenge.Assoc Challenge.Model Challenge.Check Solvers.Model Solvers.E2E.
+From CM Require Import Lib.Str Lib.Wire Gen.Consts Safe.Model Challenge.Assoc Challenge.Model Challenge.Check Solvers.Model Solvers.E2E Solvers.Config.
 Open Scope N_scope.
 
 Record obs := Obs {
@@ -31,7 +31,8 @@ Record case := Case {
   k_occupied : list str;
   k_final_only : bool;
   k_steps : list stepc;
-  k_e2e : list e2e_item
+  k_e2e : list e2e_item;
+  k_cfgs : list (icfg * list sdesc)   (* issuer configurations and the solver sets newACMEClient built for them *)
 }.
 
 Definition get_skind : dec skind :=
@@ -58,11 +59,17 @@ Definition get_item : dec e2e_item :=
   | 0 => o <- get_bool ;; b <- get_bool ;; ret (EValidation i o b)
   | _ => v <- get_bool ;; r <- get_bool ;; c <- get_bool ;; b <- get_bool ;; ret (EOutcome i v r c b)
   end.
+Definition get_sdesc : dec sdesc :=
+  t <- get_ctype ;; d <- get_bool ;; p <- get_str ;; a <- get_str ;; ret (SDesc t d p a).
+Definition get_cfg : dec (icfg * list sdesc) :=
+  dn <- get_bool ;; dh <- get_bool ;; da <- get_bool ;; h <- get_str ;; ah <- get_z ;; aa <- get_z ;;
+  gh <- get_z ;; gs <- get_z ;; ik <- get_str ;; obs <- get_list get_sdesc ;;
+  ret (ICfg dn dh da h ah aa gh gs ik, obs).
 Definition get_case : dec case :=
   lt <- get_list (get_pair get_n get_n) ;; st <- get_list get_n ;; h <- get_bool ;;
   os <- get_list get_order ;; oc <- get_list get_str ;; fo <- get_bool ;; ss <- get_list get_step ;;
-  es <- get_list get_item ;;
-  ret (Case lt st h os oc fo ss es).
+  es <- get_list get_item ;; cs <- get_list get_cfg ;;
+  ret (Case lt st h os oc fo ss es cs).
 
 Section Run.
   Variable c : case.
@@ -148,7 +155,10 @@ Section Run.
 
   Definition result : bool * bool * nat :=
     let '(a, sp, j) := replay (k_steps c) sinit [] O in
-    (a && forallb item_agrees (k_e2e c), sp && forallb item_spec (k_e2e c), j).
+    (a && forallb item_agrees (k_e2e c) &&
+     forallb (fun x : icfg * list sdesc => same_set sdesc_eqb (solver_set lower is_space (fst x)) (snd x)) (k_cfgs c),
+     sp && forallb item_spec (k_e2e c) &&
+     forallb (fun x : icfg * list sdesc => cfg_spec lower is_space (fst x) (snd x)) (k_cfgs c), j).
 End Run.
 
 Definition check_line (l : list Z) : Z :=
